@@ -411,6 +411,7 @@ class Checker:
         self.open_classes = {k.get("class") for k in ctx.known_open()}
         self.pending = {}
         self.evals = 0
+        self.retried = 0
         self.nontrivial = set()
         self.mism_m = 0
         self.mism_s = 0
@@ -436,7 +437,15 @@ class Checker:
             else:
                 opts = "gc=always" if gc_always_every and i % gc_always_every == 0 else "-"
                 lines.append(mods_line(m["main"], m["mods"], opts))
-        recs = yvlib.run_harness(self.binary, lines, case_timeout_ms=10000)
+        recs = yvlib.run_harness(self.binary, lines, case_timeout_ms=15000)
+        # a crash / timeout may be an artefact of the shared machine (harness binary rebuilt by a concurrent check,
+        # CPU starvation): such cases are re-run once, alone, before they count
+        bad = [i for i, r in enumerate(recs) if r.crashed]
+        if bad:
+            again = yvlib.run_harness(self.binary, [lines[i] for i in bad], case_timeout_ms=60000, shards=min(4, len(bad)))
+            for i, r in zip(bad, again):
+                recs[i] = r
+            self.retried += len(bad)
         return models, recs
 
     def compare_one(self, prog, m, rec):
@@ -637,14 +646,14 @@ def run(ctx):
     shapes = []
     edge_sets = list(all_edge_sets(4))
     if quick:
-        edge_sets = [edge_sets[0], edge_sets[-1]] + rng.sample(edge_sets, 150)
+        edge_sets = [edge_sets[0], edge_sets[-1]] + rng.sample(edge_sets, 110)
     for es in edge_sets:
         for wrap in (False, True):
             shapes.append(shape_program(es, wrap, ["ok"] * 4))
     # missing / uncompilable members
     kinds_pool = [k for k in itertools.product(["ok", "missing", "bad"], repeat=3) if k != ("ok", "ok", "ok")]
     base = list(all_edge_sets(4))
-    for _ in range(120 if quick else 3000):
+    for _ in range(80 if quick else 2500):
         es = rng.choice(base)
         kinds = ["ok"] + list(rng.choice(kinds_pool))
         shapes.append(shape_program(es, rng.random() < 0.6, kinds))
@@ -652,7 +661,7 @@ def run(ctx):
     nshapes = len(shapes)
     # 3. random programs
     g = Gen(rng)
-    rnd = [g.program() for _ in range(450 if quick else 9000)]
+    rnd = [g.program() for _ in range(360 if quick else 7000)]
     ch.check(rnd, "random", "random")
     # shrink the first genuine violation
     fam = [v for v in ctx.violations if v.get("family")]
@@ -682,7 +691,7 @@ def run(ctx):
         "traces_validated_against_impl": ch.evals,
         "programs": ch.evals, "graph_shape_programs": nshapes, "random_programs": len(rnd), "corpus_scripts": ncorpus,
         "impl_vs_model_mismatches": ch.mism_m, "impl_vs_spec_mismatches": ch.mism_s,
-        "main_only_name_cases": ch.flag_b,
+        "main_only_name_cases": ch.flag_b, "harness_cases_retried_after_crash": ch.retried,
         "exhaustive": (not quick),
         "pending_findings": ch.pending,
     })
